@@ -115,6 +115,9 @@ pub struct Shared {
     /// status byte to return from the k-th fallible store call (find/save/update) of the ceremony; 0 = none
     pub faults: Vec<u8>,
     pub fallible_calls: usize,
+    /// concurrent runs: the fault plan and the number of fallible store calls made, per ceremony (`current`)
+    pub faults_by_cer: Vec<Vec<u8>>,
+    pub calls_by_cer: Vec<usize>,
     /// answer of the user-validation step for the current ceremony
     pub uv_answer: Result<(bool, bool), u8>,
     /// what the environment reports NOW, when it changed after the authenticator was built (an enrolment into user
@@ -169,6 +172,8 @@ pub fn new_shared() -> Sh {
         cancelled: false,
         faults: vec![],
         fallible_calls: 0,
+        faults_by_cer: vec![],
+        calls_by_cer: vec![],
         uv_answer: Ok((true, true)),
         env_now: None,
         yields: true,
@@ -479,6 +484,11 @@ impl TStore {
     }
     fn fault(&self) -> Option<u8> {
         let mut s = self.sh.lock().unwrap();
+        if let (Some(i), false) = (s.current, s.faults_by_cer.is_empty()) {
+            let k = s.calls_by_cer[i];
+            s.calls_by_cer[i] += 1;
+            return s.faults_by_cer[i].get(k).copied().filter(|b| *b != 0);
+        }
         let k = s.fallible_calls;
         s.fallible_calls += 1;
         s.faults.get(k).copied().filter(|b| *b != 0)
